@@ -1586,6 +1586,15 @@ class Rule(metaclass=LogicalType):
                     forward_key=forward_key,
                     force_clear=force_clear_refs
                 )
+            else:
+                # a Rule made outside (types.Array['B']) may hold references in its args
+                LogicalType._register_rule_refs(
+                    annotation,
+                    global_vars=global_vars,
+                    forward_refs=forward_refs,
+                    forward_key=forward_key,
+                    force_clear=force_clear_refs
+                )
             # do not detect origin for Logical types (including Rule)
             origin = None
         else:
